@@ -1081,6 +1081,12 @@ class Values:
         if name == "range":
             return V(("elems", ("const", "int")))
         if name == "map":
+            # ``map(aiter, xs)``: like ``(aiter(x) for x in xs)`` — the library's adapter applied to every element
+            if len(e.args) == 2:
+                fv = self._arg(unit, e, at, 0)
+                if fv and all(f[0] == "libfn" and f[1].rsplit(".", 1)[-1] in ("aiter", "iter") for f in fv):
+                    its = self.as_async_iter(self.element_of(self._arg(unit, e, at, 1)))
+                    return frozenset(("elems", x) for x in its) or V(("elems", ("const", "mapped")))
             return V(("elems", ("const", "mapped")))
         if name == "getattr":
             arg = self._arg(unit, e, at, 0)
